@@ -222,8 +222,8 @@ class BuiltinsMixin(AccessMixin):
             d = dict(v.members)
             # what ``type`` adds to every class namespace
             d.setdefault("__module__", "pyscsi.utils.enum")
-            d.setdefault("__dict__", Unknown("getset descriptor"))
-            d.setdefault("__weakref__", Unknown("getset descriptor"))
+            d.setdefault("__dict__", Instance(self.bclasses["object"]))      # getset descriptors:
+            d.setdefault("__weakref__", Instance(self.bclasses["object"]))   # not callable
             d.setdefault("__doc__", None)
             return d
         if isinstance(v, ClassVal):
@@ -335,7 +335,7 @@ class BuiltinsMixin(AccessMixin):
         return Unknown("filter")
 
     def bi_super(self, args, kwargs, node, frame):
-        return Unknown("super()")
+        return SuperProxy(frame)
 
     # -- constructors ------------------------------------------------------
     def bi_dict(self, args, kwargs, node, frame):
@@ -844,3 +844,8 @@ class KeySet:
     def __init__(self, d):
         self.d = d
         self.nonempty = False
+
+
+class SuperProxy:
+    def __init__(self, frame):
+        self.frame = frame
